@@ -228,44 +228,61 @@ def random_nfa(Sigma: Set[Symbol], n: int) -> NFA:
     return NFA(Q, Sigma, delta, q0, F, epsilon)
 
 
+def _fresh_nfa_state(Q: Set[State], id_generator: IdentifierGenerator) -> State:
+    """Generates a state that is not contained in Q"""
+    q = State(id_generator.generate('q'))
+    while q in Q:
+        q = State(id_generator.generate('q'))
+    return q
+
+
+def _copy_nfa_transitions(delta, N: NFA, epsilon: Symbol) -> None:
+    """Adds copies of the transitions of N to delta, using epsilon as the label of epsilon transitions"""
+    for (q, a), Q1 in N.delta.items():
+        delta[q, epsilon if a == N.epsilon else a] |= Q1
+
+
 def nfa_repetition(N: NFA, id_generator: IdentifierGenerator = IdentifierGenerator()) -> NFA:
+    epsilon = N.epsilon
     Sigma = N.Sigma
-    q0 = State(id_generator.generate('q'))
+    q0 = _fresh_nfa_state(N.Q, id_generator)
     Q = N.Q | {q0}
     F = N.F | {q0}
     delta = defaultdict(lambda: set([]))
-    delta.update(N.delta)
+    _copy_nfa_transitions(delta, N, epsilon)
     for q in F:
-        delta[q, N.epsilon] |= {N.q0}
-    delta[q0, N.epsilon] = {N.q0}
-    return NFA(Q, Sigma, delta, q0, F)
+        delta[q, epsilon] |= {N.q0}
+    delta[q0, epsilon] = {N.q0}
+    return NFA(Q, Sigma, delta, q0, F, epsilon)
 
 
 def nfa_union(N1: NFA, N2: NFA, id_generator: IdentifierGenerator = IdentifierGenerator()) -> NFA:
     assert N1.Q.isdisjoint(N2.Q)
+    epsilon = N1.epsilon
     Sigma = N1.Sigma | N2.Sigma
-    q0 = State(id_generator.generate('q'))
+    q0 = _fresh_nfa_state(N1.Q | N2.Q, id_generator)
     Q = N1.Q | N2.Q | {q0}
     F = N1.F | N2.F
     delta = defaultdict(lambda: set([]))
-    delta.update(N1.delta)
-    delta.update(N2.delta)
-    delta[q0, N1.epsilon] = {N1.q0, N2.q0}
-    return NFA(Q, Sigma, delta, q0, F)
+    _copy_nfa_transitions(delta, N1, epsilon)
+    _copy_nfa_transitions(delta, N2, epsilon)
+    delta[q0, epsilon] = {N1.q0, N2.q0}
+    return NFA(Q, Sigma, delta, q0, F, epsilon)
 
 
 def nfa_concatenation(N1: NFA, N2: NFA) -> NFA:
     assert N1.Q.isdisjoint(N2.Q)
+    epsilon = N1.epsilon
     Sigma = N1.Sigma | N2.Sigma
     q0 = N1.q0
     Q = N1.Q | N2.Q | {q0}
     F = N2.F
     delta = defaultdict(lambda: set([]))
-    delta.update(N1.delta)
-    delta.update(N2.delta)
+    _copy_nfa_transitions(delta, N1, epsilon)
+    _copy_nfa_transitions(delta, N2, epsilon)
     for q in N1.F:
-        delta[q, N1.epsilon] |= {N2.q0}
-    return NFA(Q, Sigma, delta, q0, F)
+        delta[q, epsilon] |= {N2.q0}
+    return NFA(Q, Sigma, delta, q0, F, epsilon)
 
 
 def print_nfa(N: NFA) -> str:
